@@ -33,7 +33,8 @@ def gen_cases(tier, seed):
                 for mn in ["0", "1/2", "1", "4"]:
                     for vm in ["0", "1/2", "2"]:
                         yield {"k": "clamp", "a": [power, cur, mx, mn, vm]}
-    yield from runcheck.gen_cases_for(PID, tier, seed, per_strategy_quick=250, per_strategy_thorough=2500)
+    yield from runcheck.gen_cases_for(PID, tier, seed, per_strategy_quick=250, per_strategy_thorough=2500,
+                                  builder_quick=60, builder_thorough=600)
 
 
 def eval_clamp(case):
